@@ -254,9 +254,19 @@ def coq_audit(prop, log, allowed_axioms):
 # Rust harness
 
 
+# Coverage mode (tools/coverage.py): VERIF_COV=1 builds the dev-profile harness with the nightly toolchain and
+# `-C instrument-coverage` into harness/target_cov, every harness process writes a .profraw under out/cov/, and the
+# evidence of the run goes to out/cov_evidence/ (a coverage run never rewrites evidence/).  It measures which
+# regions of /repo's source the correspondence executes; it decides nothing.
+COV = os.environ.get("VERIF_COV") == "1"
+TARGET_DIR = os.path.join(HARNESS, "target_cov" if COV else "target")
+if COV:
+    os.environ["LLVM_PROFILE_FILE"] = os.path.join(OUT, "cov", os.environ.get("VERIF_COV_TAG", "run"), "%p-%m.profraw")
+
+
 def harness_env():
-    return {"RUSTFLAGS": f"--cfg {GUARD}", "CARGO_TARGET_DIR": os.path.join(HARNESS, "target"),
-            "CARGO_NET_OFFLINE": "true"}
+    flags = f"--cfg {GUARD}" + (" -C instrument-coverage" if COV else "")
+    return {"RUSTFLAGS": flags, "CARGO_TARGET_DIR": TARGET_DIR, "CARGO_NET_OFFLINE": "true"}
 
 
 def harness_build(binname, release=False, crate=HARNESS, timeout=1500, profile=None):
@@ -264,13 +274,13 @@ def harness_build(binname, release=False, crate=HARNESS, timeout=1500, profile=N
     'relchk' (optimised, overflow checks ON, debug assertions OFF - defined in harness/Cargo.toml)"""
     if profile is None:
         profile = "release" if release else "dev"
-    cmd = ["cargo", "build", "--offline", "--quiet", "--bin", binname]
+    cmd = ["cargo"] + (["+nightly"] if COV else []) + ["build", "--offline", "--quiet", "--bin", binname]
     if profile == "release":
         cmd.append("--release")
     elif profile != "dev":
         cmd += ["--profile", profile]
     rc, out = sh(cmd, cwd=crate, env=harness_env(), timeout=timeout)
-    path = os.path.join(HARNESS, "target", "debug" if profile == "dev" else profile, binname)
+    path = os.path.join(TARGET_DIR, "debug" if profile == "dev" else profile, binname)
     return rc == 0 and os.path.exists(path), out, path
 
 
@@ -526,8 +536,8 @@ class Report:
             "coverage": coverage, "assumptions": assumptions,
             "wall_s": round(time.time() - self.t0, 2), "violations": len(self.violations),
         }
-        ensure_dir(os.path.join(VERIF, "evidence"))
-        with open(os.path.join(VERIF, "evidence", f"{self.prop}.json"), "w") as f:
+        evdir = ensure_dir(os.path.join(OUT, "cov_evidence") if COV else os.path.join(VERIF, "evidence"))
+        with open(os.path.join(evdir, f"{self.prop}.json"), "w") as f:
             json.dump(ev, f, indent=1, default=str)
         for l in self.notes:
             print(l)
